@@ -575,3 +575,80 @@ fn fmt_arg(a: usize) -> String {
         a.to_string()
     }
 }
+
+// ------------------------------------------------------------------ C16: configuration digests
+
+/// Address-free observable record of one history: per step (panicked, return value), then the
+/// final contents, lengths and capacities of every slot.
+fn observe_history(hist: &[Op], cfg: &Cfg) -> (String, Vec<Op>) {
+    oracle::begin_execution(cfg.parity_odd);
+    oracle::register_region(STATIC4.as_ptr() as usize, STATIC4.len(), REGION_STATIC);
+    let mut w = World::new();
+    w.check = false;
+    let mut rec = String::new();
+    for op in hist {
+        w.step(*op);
+        rec.push_str(&format!("{}{}:", if w.last.panicked { 'P' } else { 'r' }, w.last.ret));
+    }
+    for i in 0..MAXH {
+        match &w.slots[i] {
+            Some(sl) => {
+                let readable = sl.h.len() == 0 || oracle::find_live(sl.h.ptr()).is_some() || oracle::find_region(sl.h.ptr()).is_some();
+                rec.push_str(&format!("|{}{},{},{:02x?}", if sl.h.is_b() { 'B' } else { 'M' }, sl.h.len(), sl.h.cap(), if readable { sl.h.bytes().to_vec() } else { vec![] }));
+                if let H::B(b) = &sl.h {
+                    rec.push(if b.is_unique() { 'u' } else { 's' });
+                }
+            }
+            None => rec.push_str("|-"),
+        }
+    }
+    let next = enabled(&w, cfg);
+    let live: Vec<usize> = (0..MAXH).filter(|&i| w.slots[i].is_some()).collect();
+    w.drop_all(&live);
+    let end = oracle::end_execution();
+    let _ = oracle::take_violation();
+    rec.push_str(&format!("|leak{}", end.leaked.len()));
+    (rec, next)
+}
+
+/// Enumerate every history up to `cfg.depth` WITHOUT deduplication; returns per bucket
+/// (= index of the first operation after the root) a digest of all records in order, the
+/// number of histories, and optionally the records of one bucket.
+pub fn digest(cfg: &Cfg, dump_bucket: Option<usize>) -> (Vec<(usize, u128, u64)>, Vec<String>, u64) {
+    let root = vec![Op::new(K::Root, 0, 0, cfg.root.0, cfg.root.1)];
+    let (rec0, first) = observe_history(&root, cfg);
+    let mut buckets: Vec<(usize, u128, u64)> = vec![];
+    let mut dump: Vec<String> = vec![];
+    let mut total = 1u64;
+    buckets.push((usize::MAX, hash128(rec0.as_bytes()), 1));
+    for (bi, a) in first.iter().enumerate() {
+        if let Some(d) = dump_bucket {
+            if d != bi {
+                continue;
+            }
+        }
+        let mut h: u128 = 0;
+        let mut n = 0u64;
+        // DFS in enumeration order
+        let mut stack: Vec<Vec<Op>> = vec![vec![root[0], *a]];
+        while let Some(hist) = stack.pop() {
+            oracle::sys::set_crash_note(&hist_json(&hist));
+            let (rec, next) = observe_history(&hist, cfg);
+            n += 1;
+            h = hash128(&[&h.to_le_bytes()[..], rec.as_bytes()].concat());
+            if dump_bucket.is_some() {
+                dump.push(format!("{}\t{}", hist_json(&hist), rec));
+            }
+            if hist.len() <= cfg.depth {
+                for op in next.iter().rev() {
+                    let mut h2 = hist.clone();
+                    h2.push(*op);
+                    stack.push(h2);
+                }
+            }
+        }
+        total += n;
+        buckets.push((bi, h, n));
+    }
+    (buckets, dump, total)
+}
